@@ -19,7 +19,13 @@ import (
 	"time"
 )
 
-const verifRoot = "/verif"
+// verifRoot is where evidence, replays and KNOWN_FINDINGS.txt live: the checkout this binary was built from (bin/check exports it)
+var verifRoot = func() string {
+	if v := os.Getenv("VERIF_ROOT"); v != "" {
+		return v
+	}
+	return "/verif"
+}()
 
 type Case struct {
 	ID   string          `json:"id"`
